@@ -192,6 +192,13 @@ class PartProcessor(PartHandler, Maintainable):
 
     def _shutdown(self, is_failure, lost_part):
         if self._is_shut_down:
+            if is_failure:
+                # Failed while already shut down (e.g. for maintenance):
+                # the interrupted cycle must not resume after restore
+                # and the lost part still has to be reported.
+                self._env.cancel_matching_events(asset_id = self.id)
+                for c in self._shutdown_callbacks:
+                    c(self, is_failure, lost_part)
             return
         self._is_shut_down = True
         if is_failure:
